@@ -43,4 +43,6 @@ var corpus = []string{
 	`gx = 1; local function f() return gx end; local env = {gx = 2}; setfenv(f, env); emit(f(), gx, getfenv(f) == env); local function mk() return function() return gx end end; setfenv(mk, {gx = 3}); emit(mk()())`,
 	`local function outer() local a = 1; local function mid() local function inner() a = a + 1; return a end; return inner end; return mid(), function() return a end end; local i, g = outer(); i(); i(); emit(g())`,
 	`local t = {}; local i = 1; while i <= 3 do local j = i; t[i] = function() return j end; i = i + 1 end; emit(t[1](), t[2](), t[3]()); local r = {}; local k = 1; repeat local j = k * 2; r[k] = function() return j end; k = k + 1 until k > 2; emit(r[1](), r[2]())`,
+	// fixed 1f23970: the body of `local f = function ... end` sees the f in scope before the statement
+	`fq = "global"; local fq = function() return fq end; emit(type(fq()), fq()); local function rq(n) if n == 0 then return type(rq) end return rq(n - 1) end; emit(rq(2)); local gq = 5; local gq = (function() return gq end); emit(gq())`,
 }
